@@ -31,10 +31,10 @@ func TestVerifC08Fkeys(t *testing.T) {
 		h := &vHarness{tr: tr, r: r, raw: true, th: &core.Thread{},
 			alpha: []string{"", "", "a", "b", "a\x00", "\x00", "a\x00\x00b", "\x00\x01"}}
 		h.sch = vShape(r)
-		if h.sch.name == "chain" {
+		if h.sch.hasRawSource() {
 			// a single-column key as foreign key source is iterated by a raw (unencoded) range:
-			// values containing zero bytes give false matches there (see rawKeyRangeProbe)
-			h.alpha = []string{"", "", "a", "b", "ab", "c", "\x01", "a\x01"}
+			// values that lie in each other's raw range give false matches there (rawKeyRangeProbe)
+			h.alpha = vRawSafe
 		}
 		for t := range h.sch.tables {
 			core.Global.TestDef("Trigger_"+vTname(t), nil)
@@ -84,6 +84,14 @@ func (h *vHarness) runFkHistory(hi int) {
 				if out == "!fkdel" {
 					h.blockedOracle(op, before, hist)
 				}
+				if out != "!abort" {
+					// the exception left the transaction usable: then it must not have changed anything
+					// (a caller may catch it and commit)
+					if after := vStateText(h.snapshot(ut)); after != vStateText(before) {
+						h.fail("failed-op-changed-rows:"+op.kind, fmt.Sprintf("%s raised %q, the transaction is still usable but its rows changed from %s to %s; after: %s",
+							op.line(), msg, vStateText(before), after, hist))
+					}
+				}
 				if out == "!abort" {
 					alive = false
 					if len(msg) > 60 {
@@ -106,7 +114,17 @@ func (h *vHarness) runFkHistory(hi int) {
 				}
 			}
 		}
-		if alive && h.r.Intn(8) != 0 {
+		if !alive {
+			// the caller caught the exception of the failed operation and commits anyway
+			res := ut.Complete()
+			if res == "" {
+				tr.Q("commit", "ok")
+			} else {
+				tr.Q("commit", "!aborted")
+			}
+			hist += " ; commit"
+			tr.Count("commit-after-abort")
+		} else if h.r.Intn(8) != 0 {
 			res := ut.Complete()
 			if res != "" {
 				tr.Q("commit", "!"+res)
